@@ -3,7 +3,7 @@ from __future__ import annotations
 
 import ast
 
-from ..algebra import canon, is_const, linear_in, monomials, poly, same
+from ..algebra import canon, is_const, linear_in, monomials, normalised_by_own_norm, poly, same
 from ..interp import Interp, SELF, Event, Path, cmp_with_left, contains, field_defs, show, strip_typed, walk
 from ..model import AnalysisError, FuncInfo
 from . import util
@@ -714,7 +714,8 @@ def mps_initial_state(ctx) -> None:
                 names.append("orthogonalize")
             elif e.kind == "setattr" and e.name == "state":
                 names.append("store")
-        normalised = "norm()" in show(st[-1].value)
+        # the stored state is X·(1/‖X‖) for one and the same X: a single monomial X·‖X‖⁻¹ with coefficient 1
+        normalised = normalised_by_own_norm(st[-1].value) is not None
         okseq = names[:1] == ["truncate"] and "store" in names and names[-1] == "orthogonalize" and normalised
         ctx.ob("ROLE-mps", "user initial state copied", (new[-1] if new else f).loc() if new else f.loc(), okcopy and okcfg,
                "the user's MPS factors are cloned into a new MPS with the run's precision and bond cap" if okcopy and okcfg
